@@ -139,16 +139,25 @@ void bn_set_bit(bn_t a, uint_t bit, int value) {
 
 	RLC_RIP(bit, d, bit);
 
-	bn_grow(a, d);
-
 	if (value == 1) {
-		a->dp[d] |= ((dig_t)1 << bit);
-		if ((d + 1) > a->used) {
-			a->used = d + 1;
+		RLC_TRY {
+			bn_grow(a, d + 1);
+			if ((d + 1) > a->used) {
+				/* Digits above the used ones are not initialized. */
+				for (int i = a->used; i <= d; i++) {
+					a->dp[i] = 0;
+				}
+				a->used = d + 1;
+			}
+			a->dp[d] |= ((dig_t)1 << bit);
+		} RLC_CATCH_ANY {
+			RLC_THROW(ERR_CAUGHT);
 		}
 	} else {
-		a->dp[d] &= ~((dig_t)1 << bit);
-		bn_trim(a);
+		if (d < a->used) {
+			a->dp[d] &= ~((dig_t)1 << bit);
+			bn_trim(a);
+		}
 	}
 }
 
